@@ -42,6 +42,8 @@ def cases(tier, seed):
         yield {"fam": "rand", "i": i}
     for i in range(300 if tier == "quick" else 6000):
         yield {"fam": "compete", "i": i}
+    for i in range(540 if tier == "quick" else 5400):
+        yield {"fam": "paircode", "i": i}
 
 
 def setup(ctx):
@@ -98,8 +100,36 @@ def run_pair(ctx, pred, refa, fam):
                         )
                 prev = (cur, tie, thr)
     monitors.S.exact = False
+    if ctx.cases_run % 3 == 0:
+        reuse_sweep(ctx, pred, refa, pi, ri)
     if pi and ri:
         ctx.sample({"family": fam, "pred": pred, "ref": refa})
+
+
+def reuse_sweep(ctx, pred, refa, pi, ri):
+    """the same UnmatchedInstancePair object is matched repeatedly: strict -> loose threshold sweep, another
+    matcher class in between, and the same matcher object twice (each call is judged by the monitor)"""
+    from panoptica.utils.processing_pair import UnmatchedInstancePair
+
+    ndim = refa.ndim
+    up = UnmatchedInstancePair(pred.copy(), refa.copy())
+    for metric in ("IOU", "DSC"):
+        table = ref.score_table(metric, ri, pi, ndim)
+        ths = sorted(gen.threshold_classes(table.values(), False, exact=True, lo=0.0, hi=1.0), reverse=True)  # strict -> loose
+        last = None
+        for k, thr in enumerate(ths):
+            matcher = pan.make_matcher({"kind": "naive", "metric": metric, "thr": thr, "m2o": bool(k % 2)})
+            ctx.count("evaluations")
+            ctx.count("C03.reuse_calls")
+            try:
+                with pan.quiet():
+                    matcher.match_instances(up)
+                    if k % 4 == 1:
+                        pan.make_matcher({"kind": "merge", "metric": metric, "thr": thr}).match_instances(up)
+                    if k % 4 == 2:
+                        matcher.match_instances(up)  # same matcher, same pair again
+            except Exception:  # noqa: BLE001  (recorded by the monitor)
+                pass
 
 
 def compete_pair(seed, i):
@@ -139,6 +169,9 @@ def run(case, ctx):
         dtype = [np.uint8, np.uint16, np.uint32, np.uint64][i % 4]
         pred, refa, f = gen.random_pair(ctx.seed, i, dtype=dtype)
         ctx.count("f:family." + f)
+    elif fam == "paircode":
+        pred, refa = gen.paircode_boundary_pair(ctx.seed, i)
+        ctx.count("f:family.paircode_boundary")
     else:
         pred, refa = compete_pair(ctx.seed, i)
     if not pred.any() or not refa.any():
